@@ -221,6 +221,13 @@ pub fn gen_vector(rng: &mut Rng, id: String, fam: &str, cont: &str, n: usize, pr
         1..=3 => cmds.push(json!(["settle_all"])),
         _ => cmds.push(json!(["settle"])),
     }
+    // after the final result: stale wakes and one more poll (must not reach any child)
+    if !group && rng.chance(25) {
+        if n > 0 && rng.chance(50) {
+            cmds.push(json!(["fire", rng.below(n as u64), -1]));
+        }
+        cmds.push(json!(["repoll"]));
+    }
     Vector {
         id,
         fam: fam.into(),
